@@ -152,6 +152,25 @@ theorem wrap_token_grants_nothing_else (path op : String) (h : wrapPolicyAllows 
     (path = "cubbyhole/response" ∧ (op = "read" ∨ op = "create")) ∨ (path = "sys/wrapping/unwrap" ∧ op = "update") := by
   simpa [wrapPolicyAllows] using h
 
+/-- … and this does not depend on WHO asked for the wrapping: whatever entity the requester is bound to and whatever
+identity policies the identity store attaches to any entity, a request with a fresh wrapping token as its client token
+is allowed only to read (initially create) `cubbyhole/response` and to update `sys/wrapping/unwrap` — the wrapping
+token is bound to no entity, so `fetchACLTokenEntryAndEntity` adds nothing to its `response-wrapping` policy. -/
+theorem wrap_token_grants_nothing_else_any_requester (identity : String → List String) (requesterEntity path op : String)
+    (h : wrapTokenAllows identity requesterEntity path op = true) :
+    (path = "cubbyhole/response" ∧ (op = "read" ∨ op = "create")) ∨ (path = "sys/wrapping/unwrap" ∧ op = "update") := by
+  have : wrapPolicyAllows path op = true := by
+    simpa [wrapTokenAllows, effectivePolicies, wrapTokenEntry, namedPolicyAllows] using h
+  exact wrap_token_grants_nothing_else path op this
+
+/-- A wrapping token that inherits the requester's entity (NOT the code; the seeded change C18-3) would be allowed
+whatever that entity's identity policies allow. -/
+theorem wrap_token_inheriting_entity_cex :
+    ((effectivePolicies (fun _ => ["c18ident"]) (wrapTokenEntryInheriting "e1")).any
+      (namedPolicyAllows · "sys/mounts" "read")) = true ∧
+    wrapTokenAllows (fun _ => ["c18ident"]) "e1" "sys/mounts" "read" = false := by
+  decide
+
 /-- Lookup reports the path that created the wrapped response: after ANY history of rewraps (any number of
 generations, first- or third-party) of a response that was wrapped for a request on `path` with TTL `ttl`, whenever
 a live token of the chain exists, `sys/wrapping/lookup` on it reports `creation_path = path` and `creation_ttl =
